@@ -157,6 +157,12 @@ func (c *Compactor) Compact(ctx context.Context, dstLevel int) (*ltx.FileInfo, e
 
 	pr, pw := io.Pipe()
 	go func() {
+		// See Replica.Restore: a truncated input must surface as an error.
+		defer func() {
+			if r := recover(); r != nil {
+				_ = pw.CloseWithError(fmt.Errorf("ltx compactor panic: %v", r))
+			}
+		}()
 		comp, err := ltx.NewCompactor(pw, rdrs)
 		if err != nil {
 			_ = pw.CloseWithError(fmt.Errorf("new ltx compactor: %w", err))
